@@ -276,6 +276,7 @@ def run(pid, tier, replay_file=None):
     if pid == "C10" and not replay_file:
         import checks_extreme
         ext_cov = checks_extreme.collect(rep, tier)
+        ext_cov.update(checks_extreme.random_extremes(rep, tier))
     ext01 = {}
     if pid == "C01" and not replay_file:
         import checks_extreme
